@@ -434,7 +434,8 @@ structure SafetyNetRules (W : World) (st : AttStmt) (authDataRaw : Cbor) (cdj : 
     -- nonce = base64(SHA-256(authenticatorData ‖ SHA-256(clientDataJSON)))
     (∃ n, (JVal.lookup payload "nonce").getD (.str "") = .str n ∧
           n.toList = b64Std (W.sha256 (ad ++ W.sha256 cdj))) ∧
-    ((JVal.lookup payload "basicIntegrity").getD (.bool false)).truthy = true ∧
+    -- basicIntegrity is the JSON value true itself (not merely something truthy: finding F13)
+    (JVal.lookup payload "basicIntegrity").getD (.bool false) = .bool true ∧
     snetTimestamp ((JVal.lookup payload "timestampMs").getD (.int 0)) = .ok ts ∧
     safetynetTimestampRejects ts W.nowSeconds = false ∧
     snetX5c ((JVal.lookup header "x5c").getD (.arr [])) = .ok x5c ∧ x5c.head? = some leaf ∧
@@ -443,6 +444,11 @@ structure SafetyNetRules (W : World) (st : AttStmt) (authDataRaw : Cbor) (cdj : 
     JVal.lookup header "alg" = some (.str "RS256") ∧
     Base64.decode parts.2.2 = .ok sig ∧
     SigChecked W cert.key (.nint 256) (some (.bytes sig)) (utf8 (String.ofList (parts.1 ++ ['.'] ++ parts.2.1)))
+
+theorem isTrue_eq {v : JVal} (h : v.isTrue = true) : v = .bool true := by
+  cases v with
+  | bool b => cases b <;> simp [JVal.isTrue] at h ⊢
+  | _ => simp [JVal.isTrue] at h
 
 theorem jvalStrIs_lookup {kvs : List (String × JVal)} {k : String} {d : String} {s : List Char}
     (hd : d.toList ≠ s) (h : jvalStrIs ((JVal.lookup kvs k).getD (.str d)) s = true) :
@@ -482,7 +488,7 @@ theorem safetynet {W : World} {st : AttStmt} {adRaw : Cbor} {cdj : Bytes} {roots
   have hcn' : cn = "attest.android.com" := by simpa using hcnv
   subst hcn'
   refine ⟨ad, resp, jws, parts, hb, header, pb, payload, x5c, ts, leaf, cert, sig, hraw, responseBytes_ok hresp, hjws,
-    hparts, hhb, hheader, hpb, hpayload, ?_, by simpa using hint, hts, hlate, hx5c, hleaf, hcert, hcn, hchain, ?_, hsig, hs⟩
+    hparts, hhb, hheader, hpb, hpayload, ?_, isTrue_eq (by simpa using hint), hts, hlate, hx5c, hleaf, hcert, hcn, hchain, ?_, hsig, hs⟩
   · exact jvalStrIs_eq (by simpa using hnonce)
   · exact jvalStrIs_lookup (d := "") (by decide) (by simpa using halg)
 
